@@ -323,4 +323,91 @@ theorem explode_spec (s : Bytes) (hs : s ≠ []) :
   obtain ⟨ps, h⟩ := explodeLoop_spec (s.length + 1) s (runeCount s) 0 hs rfl (by omega)
   exact ⟨ps, by simpa [genSplit, explode] using h.1, h.2⟩
 
+
+/-! ### `TrimSuffix(s, "\n")` and single-byte separators -/
+
+theorem trimSuffixNL_append (t : Bytes) : trimSuffixNL (t ++ [10]) = t := by
+  simp [trimSuffixNL, trimSuffix]
+
+theorem trimSuffixNL_cases (s : Bytes) : s = trimSuffixNL s ∨ s = trimSuffixNL s ++ [10] := by
+  unfold trimSuffixNL trimSuffix
+  split
+  · rename_i h
+    right
+    have := List.take_append_drop (s.length - ([10] : Bytes).length) s
+    rw [h.2] at this; exact this.symm
+  · left; rfl
+
+theorem index_single_none (c : UInt8) (p : Bytes) : index p [c] = none ↔ c ∉ p := by
+  induction p with
+  | nil => simp [index]
+  | cons b t ih =>
+    by_cases h : c = b
+    · subst h; simp [index, List.isPrefixOf]
+    · have h' : ¬ b = c := fun e => h e.symm
+      simp [index, List.isPrefixOf, h, h', ih]
+
+/-- the tail of `join [c] (p :: ps)` after `p` -/
+def rest (c : UInt8) (ps : List Bytes) : Bytes := if ps = [] then [] else c :: join [c] ps
+
+theorem join_single_cons (c : UInt8) (p : Bytes) (ps : List Bytes) : join [c] (p :: ps) = p ++ rest c ps := by
+  cases ps with
+  | nil => simp [join, rest]
+  | cons q r => simp [join, rest]
+
+theorem cancel_sepfree (c : UInt8) : ∀ (p q x y : Bytes), c ∉ p → c ∉ q →
+    (∀ a r, x = a :: r → a = c) → (∀ a r, y = a :: r → a = c) → p ++ x = q ++ y → p = q ∧ x = y := by
+  intro p
+  induction p with
+  | nil =>
+    intro q x y _ hq hx _ h
+    cases q with
+    | nil => exact ⟨rfl, by simpa using h⟩
+    | cons d q' =>
+      simp only [List.nil_append, List.cons_append] at h
+      have := hx d _ h
+      subst this; simp at hq
+  | cons a p' ih =>
+    intro q x y hp hq hx hy h
+    cases q with
+    | nil =>
+      simp only [List.nil_append, List.cons_append] at h
+      have := hy a _ h.symm
+      subst this; simp at hp
+    | cons d q' =>
+      simp only [List.cons_append, List.cons.injEq] at h
+      obtain ⟨rfl, h⟩ := h
+      obtain ⟨rfl, hxy⟩ := ih q' x y (fun hm => hp (List.mem_cons_of_mem _ hm))
+        (fun hm => hq (List.mem_cons_of_mem _ hm)) hx hy h
+      exact ⟨rfl, hxy⟩
+
+/-- for a one-byte separator the decomposition into separator-free pieces is unique -/
+theorem join_single_unique (c : UInt8) : ∀ (ps qs : List Bytes), ps ≠ [] → qs ≠ [] →
+    (∀ p ∈ ps, c ∉ p) → (∀ q ∈ qs, c ∉ q) → join [c] ps = join [c] qs → ps = qs := by
+  intro ps
+  induction ps with
+  | nil => intro qs h; exact absurd rfl h
+  | cons p ps' ih =>
+    intro qs _ hq hP hQ h
+    cases qs with
+    | nil => exact absurd rfl hq
+    | cons q qs' =>
+      rw [join_single_cons, join_single_cons] at h
+      have hrest : ∀ (l : List Bytes) a r, rest c l = a :: r → a = c := by
+        intro l a r hl
+        unfold rest at hl
+        split at hl
+        · simp at hl
+        · simp only [List.cons.injEq] at hl; exact hl.1.symm
+      obtain ⟨rfl, hr⟩ := cancel_sepfree c p q _ _ (hP p (by simp)) (hQ q (by simp)) (hrest ps') (hrest qs') h
+      by_cases h1 : ps' = []
+      · by_cases h2 : qs' = []
+        · rw [h1, h2]
+        · simp [rest, h1, h2] at hr
+      · by_cases h2 : qs' = []
+        · simp [rest, h1, h2] at hr
+        · simp only [rest, h1, h2, if_false, List.cons.injEq, true_and] at hr
+          rw [ih qs' h1 h2 (fun p hp => hP p (List.mem_cons_of_mem _ hp))
+            (fun q hq => hQ q (List.mem_cons_of_mem _ hq)) hr]
+
 end MdsVerif.Proofs.MstrSplit
